@@ -42,6 +42,15 @@ CHECKS = {
  "C15": ("exploration", "gridx", "exhaustive enumeration of uninit constructor x length x subset of slots written x continuation",
          "For every uninitialised constructor, length 0..=4 (6 thorough) and every subset of slots written, the handle is dropped before assume_init (no element destructor may run, the header's runs once) or, with all slots written, assumed initialised (same block, bytes, count; no allocator call, no counter write) and then shared, converted and dropped (every element and the header destroyed exactly once). Deprecated Arc::write/as_mut_slice are called in every sharing state: sole -> writes, shared -> documented panic, nothing modified.",
          "lengths as stated"),
+ "C13": ("exploration", "typex", "bounded exhaustive enumeration of generated client programs, each decided by the real compiler against the crate's real signatures",
+         "What model checking can do for a type-level property is enumerate a finite matrix of client programs and let rustc decide each one against the real crate: 278 auto-trait cells (handle kind x payload class per parameter x {Send,Sync}, plus the generic for-all-T form with each bound removed) whose E0277 set must equal the set the property says is rejected, both directions; 49 borrow-escape cells (borrow source x escape route) each of which must be rejected with a lifetime error in its own function, and 49 positive controls that must compile. It cannot quantify over all safe programs; that limit is stated in DESIGN.md and the evidence.",
+         "finite matrix; rustc is the oracle; a hole outside the matrix is not found"),
+ "C16": ("exploration", "gridx", "exhaustive enumeration of starting count x clone entry point x {std, no_std}, one child process per cell",
+         "Every cell of (10 starting counts around isize::MAX and usize::MAX) x (16 clone entry points over all handle kinds and borrow callbacks) x (std, no_std builds) runs in its own child process: the count word is located through the hook log and pre-set, the clone is wrapped in catch_unwind; above the limit the child must die by SIGABRT with no handle produced and nothing caught, at or below it the clone returns and adds exactly one.",
+         "the count word is written through the address revealed by the cfg(triomphe_verif) shim; SIGABRT/SIGILL/SIGTRAP count as abort"),
+ "C17": ("fault_enumeration", "gridx", "exhaustive fault injection into a recording serializer and a value-tree deserializer (failure at each k-th callback)",
+         "For every value of the payload family (integers, strings, tuples, sequences, options, hand-written struct/enum/newtype+map) and every k the sequence of Serializer calls and the result through Arc<T>/UniqueArc<T> must be identical to those of serialising the value; for every input tree (well-formed and ill-typed) and every k deserialising the handle is Ok iff the value's deserializer is Ok, with an equal value, count 1 and exactly one extra allocation, and on Err the same error and nothing left allocated.",
+         "two hand-written serde back ends stand for 'every serializer'; serde feature on"),
 }
 props = [json.loads(l) for l in open('/verif/properties.jsonl')]
 m = {
@@ -56,7 +65,8 @@ m = {
  },
  "engines": [
   {"name": "seqx", "path": "harness/seqx", "serves_properties": ["C01", "C03", "C04", "C08", "C09"], "kind_free_text": "explicit-state BFS over handle histories; each transition re-executes the history on the real crate under the arena allocator and compares with a reference model"},
-  {"name": "gridx", "path": "harness/gridx", "serves_properties": ["C05", "C06", "C07", "C11", "C12", "C14", "C15"], "kind_free_text": "exhaustive enumeration of finite shape / input / fault grids, each cell executed on the real crate under the arena allocator"},
+  {"name": "gridx", "path": "harness/gridx", "serves_properties": ["C05", "C06", "C07", "C11", "C12", "C14", "C15", "C16", "C17"], "kind_free_text": "exhaustive enumeration of finite shape / input / fault grids, each cell executed on the real crate under the arena allocator"},
+  {"name": "typex", "path": "lib/typex.py", "serves_properties": ["C13"], "kind_free_text": "generator of client probe crates + cargo check driver; rustc decides each cell"},
   {"name": "loomx", "path": "harness/loomx", "serves_properties": ["C02", "C03", "C08", "C09"], "kind_free_text": "loom 0.7.2 stateless exploration of thread programs on the real crate through the cfg(triomphe_verif) atomic shim"},
  ],
  "checks": [],
